@@ -52,7 +52,7 @@ ChunkLists == {<<<<a, v>>>> : a \in Addr, v \in Vars2}
               \cup {<<<<a, 1>>, <<b, v>>>> : a \in Addr, b \in Addr, v \in Vars2}
               \cup {<<<<a, 1>>, <<b, 1>>, <<a, 2>>>> : a \in Addr, b \in Addr}
 
-Put(mode, root, chs) ==
+PutBody(mode, root, chs) ==
   LET new == {chs[i][1] : i \in {j \in DOMAIN chs : m[chs[j][1]] = Absent}} IN
   /\ m' = PutPost(m, chs)
   /\ pin' = [a \in Addr |->
@@ -60,7 +60,20 @@ Put(mode, root, chs) ==
                ELSE IF mode = "requestpin" /\ a \in new THEN pin[a] + 1 ELSE pin[a]]
   /\ \A a \in Addr : pin'[a] <= MaxPin
   /\ cached' = IF mode = "request" /\ root # "-" THEN [cached EXCEPT ![root] = @ \cup new] ELSE cached
+Put(mode, root, chs) ==
+  /\ PutBody(mode, root, chs)
   /\ res' = [op |-> "put", mode |-> mode, root |-> root, chs |-> chs, exist |-> ExistFlags(m, chs)]
+
+\* C14, large batches: ONE put call of n distinct chunks that all carry a full-size (256 KiB) payload. For the
+\* contract it is a put of a long list; it is an action of its own because the amount of data the single storage
+\* batch of the call has to carry is what is being exercised: the call must still be one step for a crash.
+\* Bulk addresses are "K1", "K2", ... (enabled only where the address universe contains them).
+BulkName(i) == "K" \o ToString(i)
+BulkChs(n) == [i \in 1..n |-> <<BulkName(i), 1>>]
+PutBulk(mode, root, n) ==
+  /\ n >= 1 /\ \A i \in 1..n : BulkName(i) \in Addr
+  /\ PutBody(mode, root, BulkChs(n))
+  /\ res' = [op |-> "put", mode |-> mode, root |-> root, chs |-> BulkChs(n), exist |-> ExistFlags(m, BulkChs(n)), size |-> "full"]
 
 Get(mode, a) == /\ UNCHANGED <<m, pin, cached>>
                 /\ res' = [op |-> "get", mode |-> mode, a |-> a, v |-> m[a]]
@@ -122,8 +135,21 @@ NextC14F == \/ \E mode \in {"request", "requestpin", "uploadpin"}, chs \in Singl
             \/ \E a \in Addr, b \in Addr : SetTwo("pin", "A", a, b)
             \/ \E cap \in {1, 2} : Collect(cap)
 
-Next == NextC11 \/ NextC14
+\* C14, large batches: bulk puts (every mode; without a context and under the context of a stored chunk "A"),
+\* a small put that stores the context's root first, and operations on the bulk chunks afterwards
+NextC14B(n, modes, roots) ==
+           \/ \E mode \in modes, root \in roots :
+                 /\ root # "-" => m[root] # Absent      \* a request put under an unstored root fails before it stores anything
+                 /\ m[BulkName(1)] = Absent             \* one bulk put per history
+                 /\ PutBulk(mode, root, n)
+           \/ m["A"] = Absent /\ Put("request", "A", <<<<"A", 1>>>>)
+           \/ \E mode \in SetModes, root \in roots : m[BulkName(1)] # Absent /\ SetOne(mode, root, BulkName(1))
+           \/ m[BulkName(1)] # Absent /\ Collect(1)
+
+Next == NextC11 \/ NextC14 \/ \E mode \in PutModes, root \in Roots, n \in 1..2 : PutBulk(mode, root, n)
 Spec == Init /\ [][Next]_vars
+\* the large-batch histories alone (design check over a universe that holds bulk addresses: MCLSCoreB.cfg)
+SpecB == Init /\ [][NextC14B(2, PutModes, Roots)]_vars
 
 (***************************************************************************)
 (* Properties of the design                                                *)
